@@ -393,7 +393,7 @@ func firstNonEmpty(re *regexp.Regexp, s string) []int {
 
 var inputPieces = []string{"a", "b", "c", "ab", "abb", "\n", "\n", "\n\n", "\r\n", "\r", ";", ";;", "é", "\xff", "\x00", " ", "x", "\n\n\n", "\r\n\r\n", "aa", "ba"}
 
-var rsPool = []string{"\n", "\n", ";", "a", "\x00", "\xff", "|", ".", "", "", "é", "ab+", "a|ab", "\r?\n", "\n\n+", "[;,]", "b+", "(ab)+", "ab|abb", ";;?", "x*", "\n|\n\n", "a+b", "é+"}
+var rsPool = []string{"\r\n", "\r\n", "\r", " ", "\t", "\n\n", "\n\r", "\r\n|\n", "(\r\n)+", "[\n]", "\\n", "\\.", "\n;", "\n", "\n", ";", "a", "\x00", "\xff", "|", ".", "", "", "é", "ab+", "a|ab", "\r?\n", "\n\n+", "[;,]", "b+", "(ab)+", "ab|abb", ";;?", "x*", "\n|\n\n", "a+b", "é+"}
 
 func genInput(t *rapid.T, max int) string {
 	n := rapid.IntRange(0, max).Draw(t, "npieces")
